@@ -1,7 +1,431 @@
-/- C09 — statements under construction -/
+/-
+  C09 — Tags route sequence to the documented destination assembly.
+
+  Three links of the chain are proved here, each about the model function that mirrors the Python named in brackets:
+    1 `label_special`      [ScaffoldNamer.label_scaffold]   which tag / rank a looked-up piece gets;
+    2 `fuse_keeps_tag`     [scaffolds_fused_by_name]        fusing never merges pieces with different (tag, haplotype, name);
+    3 `assembly_key`       [assemblies_with_scaffolds_fused, split loop] which output assembly a fused scaffold is put in,
+                           and the exact rule for that assembly's `curated` flag.
+
+  FINDING (3): the simple statement "a tagged scaffold lands in an assembly with `curated = false`" is FALSE of the
+  model (and the code): `curated` is fixed by the FIRST scaffold that creates the dict entry, and the entry is keyed by
+  the bare string.  An untagged scaffold whose *haplotype* is the string "Contaminant" (e.g. an unplaced input contig
+  called `Contaminant_x_1`: `haplotype_from_first_row_name` invents the haplotype "Contaminant") creates the assembly
+  keyed "Contaminant" with `curated = true`; every Contaminant-tagged scaffold after it lands in that same, curated,
+  assembly (and the haplotype's scaffolds are written to the contaminant file).  See `curated_counterexample`.
+-/
 import AgpTpf.Model.Remap
+import AgpTpf.Proofs.C09
+import AgpTpf.Proofs.C09Fuse
+import AgpTpf.Proofs.C09Split
 namespace AgpTpf.C09
-open AgpTpf
-theorem appendRows_nil (rows : List Row) (g : Option Gap) : Scaffold.appendRows [] rows g = rows := by
-  cases g <;> simp [Scaffold.appendRows]
+open AgpTpf Dict
+
+/-! ## 1  `label_scaffold` -/
+
+/-- Target mode applies to this piece: a Target tag has been seen and the current Pretext scaffold has none. -/
+def targetMode (n : Namer) (scTags : List Str) : Prop := n.targetTags = true ∧ ¬ scTags.contains sTarget = true
+
+/-- `label_scaffold` fails only for an Unloc piece (not FalseDuplicate, not Haplotig) in an unpainted scaffold, and then
+    with ValueError. -/
+theorem label_fails_iff (n : Namer) (o : OverlapResult) (sid : Nat) (frag : Fragment) (scTags : List Str) (orig : Str) :
+    (∃ e, labelScaffold n o sid frag scTags orig = .error e) ↔
+      (¬ frag.tags.contains sFalseDuplicate = true ∧ ¬ frag.tags.contains sHaplotig = true ∧
+        frag.tags.contains sUnloc = true ∧ ¬ scTags.contains sPainted = true) := by
+  rw [labelScaffold_eq]
+  by_cases h1 : frag.tags.contains sFalseDuplicate = true
+  · rw [if_pos h1]
+    exact ⟨fun ⟨e, he⟩ => (by cases he), fun h => absurd h1 h.1⟩
+  rw [if_neg h1]
+  by_cases h2 : frag.tags.contains sHaplotig = true
+  · rw [if_pos h2]
+    exact ⟨fun ⟨e, he⟩ => (by cases he), fun h => absurd h2 h.2.1⟩
+  rw [if_neg h2]
+  by_cases h3 : frag.tags.contains sUnloc = true
+  · rw [if_pos h3]
+    by_cases h4 : ¬ scTags.contains sPainted = true
+    · rw [if_pos h4]
+      exact ⟨fun _ => ⟨h1, h2, h3, h4⟩, fun _ => ⟨_, rfl⟩⟩
+    · rw [if_neg h4]
+      exact ⟨fun ⟨e, he⟩ => (by cases he), fun h => absurd h.2.2.2 h4⟩
+  · rw [if_neg h3]
+    exact ⟨fun ⟨e, he⟩ => (by cases he), fun h => absurd h.2.2.1 h3⟩
+
+/-- **Tag and rank given by `label_scaffold`**, with the code's precedence
+    FalseDuplicate > Haplotig > (Contaminant tag or Target mode) > unchanged.
+    Besides: the haplotype is always the namer's current one and the Pretext scaffold name / tags are recorded. -/
+theorem label_special (n n' : Namer) (o o' : OverlapResult) (sid : Nat) (frag : Fragment) (scTags : List Str)
+    (orig : Str) (h : labelScaffold n o sid frag scTags orig = .ok (n', o')) :
+    (frag.tags.contains sFalseDuplicate = true → o'.tag = some sFalseDuplicate ∧ o'.rank = 3) ∧
+    (¬ frag.tags.contains sFalseDuplicate = true → frag.tags.contains sHaplotig = true →
+        o'.tag = some sHaplotig ∧ o'.rank = 3) ∧
+    (¬ frag.tags.contains sFalseDuplicate = true → ¬ frag.tags.contains sHaplotig = true →
+        (frag.tags.contains sContaminant = true ∨ targetMode n scTags) →
+        o'.tag = some sContaminant ∧ o'.rank = 3) ∧
+    (¬ frag.tags.contains sFalseDuplicate = true → ¬ frag.tags.contains sHaplotig = true →
+        ¬ frag.tags.contains sContaminant = true → ¬ targetMode n scTags →
+        o'.tag = o.tag ∧ o'.rank = n.currentRank) ∧
+    o'.haplotype = n.currentHaplotype ∧ o'.originalName = some orig ∧ o'.originalTags = some scTags ∧
+    o'.rows = o.rows ∧ o'.bait = o.bait := by
+  rw [labelScaffold_eq] at h
+  unfold targetMode
+  by_cases h1 : frag.tags.contains sFalseDuplicate = true
+  · simp only [if_pos h1] at h; cases h
+    exact ⟨fun _ => ⟨rfl, rfl⟩, fun h => absurd h1 h, fun h => absurd h1 h, fun h => absurd h1 h,
+      rfl, rfl, rfl, rfl, rfl⟩
+  simp only [if_neg h1] at h
+  by_cases h2 : frag.tags.contains sHaplotig = true
+  · simp only [if_pos h2] at h; cases h
+    exact ⟨fun h => absurd h h1, fun _ _ => ⟨rfl, rfl⟩, fun _ h => absurd h2 h, fun _ h => absurd h2 h,
+      rfl, rfl, rfl, rfl, rfl⟩
+  simp only [if_neg h2] at h
+  have key : ∀ nm, (labelled n o nm (preTag n o frag scTags).1 (preTag n o frag scTags).2 scTags orig).tag =
+        (preTag n o frag scTags).1 ∧
+      (labelled n o nm (preTag n o frag scTags).1 (preTag n o frag scTags).2 scTags orig).rank =
+        (preTag n o frag scTags).2 := fun nm => ⟨rfl, rfl⟩
+  have hpre1 : (frag.tags.contains sContaminant = true ∨ (n.targetTags = true ∧ ¬ scTags.contains sTarget = true)) →
+      preTag n o frag scTags = (some sContaminant, 3) := by
+    intro hc; unfold preTag; rw [if_pos hc]
+  have hpre2 : ¬ frag.tags.contains sContaminant = true → ¬ (n.targetTags = true ∧ ¬ scTags.contains sTarget = true) →
+      preTag n o frag scTags = (o.tag, n.currentRank) := by
+    intro hc ht; unfold preTag; rw [if_neg (by intro h; cases h <;> contradiction)]
+  by_cases h3 : frag.tags.contains sUnloc = true
+  · simp only [if_pos h3] at h
+    by_cases h4 : ¬ scTags.contains sPainted = true
+    · simp only [if_pos h4] at h; cases h
+    · simp only [if_neg h4] at h; cases h
+      refine ⟨fun h => absurd h h1, fun _ h => absurd h h2, ?_, ?_, rfl, rfl, rfl, rfl, rfl⟩
+      · intro _ _ hc; rw [(key _).1, (key _).2, hpre1 hc]; exact ⟨rfl, rfl⟩
+      · intro _ _ hc ht; rw [(key _).1, (key _).2, hpre2 hc ht]; exact ⟨rfl, rfl⟩
+  · simp only [if_neg h3] at h; cases h
+    refine ⟨fun h => absurd h h1, fun _ h => absurd h h2, ?_, ?_, rfl, rfl, rfl, rfl, rfl⟩
+    · intro _ _ hc; rw [(key _).1, (key _).2, hpre1 hc]; exact ⟨rfl, rfl⟩
+    · intro _ _ hc ht; rw [(key _).1, (key _).2, hpre2 hc ht]; exact ⟨rfl, rfl⟩
+
+/-- In Target mode every piece is tagged: there is no way to reach a curated assembly. -/
+theorem label_target_mode (n n' : Namer) (o o' : OverlapResult) (sid : Nat) (frag : Fragment) (scTags : List Str)
+    (orig : Str) (ht : targetMode n scTags) (h : labelScaffold n o sid frag scTags orig = .ok (n', o')) :
+    truthy o'.tag = true ∧ o'.rank = 3 := by
+  obtain ⟨l1, l2, l3, _⟩ := label_special n n' o o' sid frag scTags orig h
+  by_cases h1 : frag.tags.contains sFalseDuplicate = true
+  · rw [(l1 h1).1, (l1 h1).2]; exact ⟨rfl, rfl⟩
+  by_cases h2 : frag.tags.contains sHaplotig = true
+  · rw [(l2 h1 h2).1, (l2 h1 h2).2]; exact ⟨rfl, rfl⟩
+  · rw [(l3 h1 h2 (.inr ht)).1, (l3 h1 h2 (.inr ht)).2]; exact ⟨rfl, rfl⟩
+
+/-- A fresh lookup result carries no tag, so outside the special cases `label_scaffold` leaves `tag = none`. -/
+theorem find_overlaps_untagged (rows : List Row) (bait : Fragment) (o : OverlapResult)
+    (h : findOverlaps rows bait = .ok (some o)) : o.tag = none ∧ o.bait = bait := by
+  unfold findOverlaps at h
+  split at h
+  · cases h
+  · simp only [] at h
+    split at h
+    · cases h
+    · simp only [bind, Except.bind, pure, Except.pure] at h
+      repeat' split at h
+      all_goals first | (cases h; exact ⟨rfl, rfl⟩) | cases h
+
+/-! ## 2  `scaffolds_fused_by_name` -/
+
+/-- the (tag, haplotype, name) triple the fusing dict is keyed by -/
+def triple (s : Scaffold) : FKey := (s.tag, s.haplotype, s.name)
+
+/-- **Fusing keeps tags apart.**
+    (a) every stored lookup result that was added and still has rows is found, as a contiguous block of rows (reversed
+        and strand-flipped for a minus bait: `toScaffoldRows`), inside a fused scaffold with the same tag, haplotype
+        and name;
+    (b) the same for every left-over input scaffold appended by `add_missing`;
+    (c) fused scaffolds have pairwise different (tag, haplotype, name) — so the scaffold in (a)/(b) is unique;
+    (d) every fused scaffold has the triple of one of its members: its tag IS the tag of a member, and by (c) of all. -/
+theorem fuse_keeps_tag (b : Build) :
+    (∀ r ∈ b.store, r.added = true → r.o.rows ≠ [] →
+        ∃ s ∈ fuseByName b, triple s = (r.o.tag, r.o.haplotype, r.o.name) ∧ r.o.toScaffoldRows <:+: s.rows) ∧
+    (∀ e ∈ b.extra, e.1.rows ≠ [] →
+        ∃ s ∈ fuseByName b, triple s = triple e.1 ∧ e.1.rows <:+: s.rows) ∧
+    ((fuseByName b).map triple).Nodup ∧
+    (∀ s ∈ fuseByName b,
+        (∃ r ∈ b.store, r.added = true ∧ r.o.rows ≠ [] ∧ triple s = (r.o.tag, r.o.haplotype, r.o.name)) ∨
+        (∃ e ∈ b.extra, e.1.rows ≠ [] ∧ triple s = triple e.1)) := by
+  obtain ⟨hok, _, hholds, hkeys⟩ := fuseFold_spec (fuseItems b) (fuseItems_ok b) [] ⟨by simp, by simp⟩
+  have hacc : ∀ p ∈ fuseAcc b, triple p.2 = p.1 := hok.1
+  have found : ∀ it ∈ fuseItems b, ∃ s ∈ fuseByName b, triple s = it.key ∧ it.rows <:+: s.rows := by
+    intro it hit
+    obtain ⟨s, hs, hr⟩ := hholds it hit
+    have hm : (it.key, s) ∈ fuseAcc b := dGet?_mem _ _ _ hs
+    refine ⟨s, ?_, hacc _ hm, hr⟩
+    rw [fuseByName_eq]; exact List.mem_map.2 ⟨_, hm, rfl⟩
+  refine ⟨?_, ?_, ?_, ?_⟩
+  · intro r hr ha hrows
+    have hne : ¬ (¬ r.added = true ∨ r.o.rows.isEmpty = true) := by
+      intro h; rcases h with h | h
+      · exact h ha
+      · exact hrows (by simpa using h)
+    obtain ⟨it, hit, hk, hrw⟩ : ∃ it, itemOfRes b r = some it ∧ it.key = (r.o.tag, r.o.haplotype, r.o.name) ∧
+        it.rows = r.o.toScaffoldRows := by
+      unfold itemOfRes; rw [if_neg hne]; exact ⟨_, rfl, rfl, rfl⟩
+    obtain ⟨s, hs, h1, h2⟩ := found it (List.mem_append.2 (.inl (List.mem_filterMap.2 ⟨r, hr, hit⟩)))
+    exact ⟨s, hs, hk ▸ h1, hrw ▸ h2⟩
+  · intro e he hrows
+    have hne : ¬ e.1.rows.isEmpty = true := by intro h; exact hrows (by simpa using h)
+    obtain ⟨it, hit, hk, hrw⟩ : ∃ it, itemOfExtra b e = some it ∧ it.key = triple e.1 ∧ it.rows = e.1.rows := by
+      unfold itemOfExtra; rw [if_neg hne]; exact ⟨_, rfl, rfl, rfl⟩
+    obtain ⟨s, hs, h1, h2⟩ := found it (List.mem_append.2 (.inr (List.mem_filterMap.2 ⟨e, he, hit⟩)))
+    exact ⟨s, hs, hk ▸ h1, hrw ▸ h2⟩
+  · rw [fuseByName_eq, List.map_map]
+    have : (fuseAcc b).map (triple ∘ fun x => x.2) = (fuseAcc b).map (·.1) :=
+      List.map_congr_left (fun p hp => hacc p hp)
+    rw [this]; exact hok.2
+  · intro s hs
+    rw [fuseByName_eq] at hs
+    obtain ⟨p, hp, rfl⟩ := List.mem_map.1 hs
+    rcases hkeys p hp with h | ⟨it, hit, hk⟩
+    · simp at h
+    · rw [hacc p hp, ← hk]
+      rcases List.mem_append.1 hit with hit | hit
+      · obtain ⟨r, hr, hir⟩ := List.mem_filterMap.1 hit
+        left
+        unfold itemOfRes at hir
+        split at hir
+        · cases hir
+        · rename_i hc
+          cases hir
+          refine ⟨r, hr, ?_, ?_, rfl⟩
+          · cases hra : r.added
+            · exact absurd (.inl (by simp [hra])) hc
+            · rfl
+          · intro h0; exact hc (.inr (by simp [h0]))
+      · obtain ⟨e, he, hie⟩ := List.mem_filterMap.1 hit
+        right
+        unfold itemOfExtra at hie
+        split at hie
+        · cases hie
+        · rename_i hc
+          cases hie
+          exact ⟨e, he, fun h0 => hc (by simp [h0]), rfl⟩
+
+/-! ## 3  which output assembly -/
+
+/-- `asmKey s = (key, curated)` as the split loop computes it for a fused scaffold `s`: tag if truthy (not curated), else
+    haplotype if truthy, else `none` (both curated). -/
+theorem asmKey_cases (s : Scaffold) :
+    (truthy s.tag = true → asmKey s = (s.tag, false)) ∧
+    (¬ truthy s.tag = true → truthy s.haplotype = true → asmKey s = (s.haplotype, true)) ∧
+    (¬ truthy s.tag = true → ¬ truthy s.haplotype = true → asmKey s = (none, true)) := by
+  unfold asmKey
+  refine ⟨fun h => by rw [if_pos h], fun h1 h2 => by rw [if_neg h1, if_pos h2], fun h1 h2 => by rw [if_neg h1, if_neg h2]⟩
+
+/-- the assemblies dict `assembliesFused` builds for the fused scaffolds `fs` -/
+def asmsOf (prefix_ : Str) (fs : List Scaffold) : Asms := (splitLoop prefix_ fs).1
+
+/-- `assembliesFused` is the split loop followed by naming / sorting / stats (definitional). -/
+theorem assembliesFused_split (input : List Scaffold) (b : Build) :
+    assembliesFused input b = finishAssemblies input b (splitLoop b.namer.autosomePrefix (fuseByName b)) := rfl
+
+/-- The `OutAsm` list returned by `assembliesFused` has exactly the keys and `curated` flags of that dict, in order
+    (so `assembly_key` speaks about the written assemblies). -/
+theorem assembliesFused_keys (input : List Scaffold) (b : Build) (outs : List OutAsm) (stats : Stats)
+    (h : assembliesFused input b = .ok (outs, stats)) :
+    outs.map (fun a => (a.key, a.curated)) =
+      (asmsOf b.namer.autosomePrefix (fuseByName b)).map (fun a => (a.1, a.2.1)) :=
+  finishAssemblies_keys input b _ outs stats (assembliesFused_split input b ▸ h)
+
+/-- **Exact routing statement.**  Scaffold number `sid` is listed in the assembly keyed `(asmKey s).1` and in no other;
+    that assembly's member list is exactly the scaffolds with this key, in order; and its `curated` flag is
+    `(asmKey first).2` of its FIRST member — not necessarily of `s`. -/
+theorem assembly_key (prefix_ : Str) (fs : List Scaffold) (sid : Nat) (hsid : sid < fs.length) :
+    ∃ c ids first,
+      dGet? (asmsOf prefix_ fs) (asmKey (fs.getD sid default)).1 = some (c, ids) ∧
+      ids = (List.range fs.length).filter (fun j => (asmKey (fs.getD j default)).1 = (asmKey (fs.getD sid default)).1) ∧
+      sid ∈ ids ∧ ids.head? = some first ∧ first ≤ sid ∧
+      (asmKey (fs.getD first default)).1 = (asmKey (fs.getD sid default)).1 ∧
+      c = (asmKey (fs.getD first default)).2 ∧
+      (∀ k' c' ids', dGet? (asmsOf prefix_ fs) k' = some (c', ids') → sid ∈ ids' →
+          k' = (asmKey (fs.getD sid default)).1) ∧
+      ((asmsOf prefix_ fs).map (·.1)).Nodup := by
+  have hg := ginv_fold (fun j => (asmKey (fs.getD j default)).1) (fun j => (asmKey (fs.getD j default)).2)
+    (List.range fs.length) [] [] ⟨by simp, by intro k c ids h; simp [dGet?] at h, by simp⟩
+  have hasm : asmsOf prefix_ fs = (List.range fs.length).foldl
+      (fun asms j => addAsm asms ((asmKey (fs.getD j default)).1, (asmKey (fs.getD j default)).2) j) [] :=
+    splitLoop_asms prefix_ fs
+  rw [← hasm, List.nil_append] at hg
+  obtain ⟨h1, h2, h3⟩ := hg
+  have hmem : sid ∈ List.range fs.length := List.mem_range.2 hsid
+  have hsome := h3 sid hmem
+  cases hd : dGet? (asmsOf prefix_ fs) (asmKey (fs.getD sid default)).1 with
+  | none => rw [hd] at hsome; cases hsome
+  | some w =>
+    obtain ⟨c, ids⟩ := w
+    obtain ⟨e1, e2⟩ := h2 _ c ids hd
+    have hin : sid ∈ ids := by rw [e1]; exact List.mem_filter.2 ⟨hmem, by simp⟩
+    cases hh : ids.head? with
+    | none => rw [hh] at e2; cases e2
+    | some first =>
+      rw [hh] at e2
+      have hfm : first ∈ ids := List.mem_of_mem_head? hh
+      have hfk : (asmKey (fs.getD first default)).1 = (asmKey (fs.getD sid default)).1 := by
+        rw [e1] at hfm; simpa using (List.mem_filter.1 hfm).2
+      have hle : first ≤ sid := by
+        -- `ids` is a sublist of `range n`, hence sorted; its head is its minimum
+        have hsorted : ids.Pairwise (· < ·) := by
+          rw [e1]; exact List.Pairwise.filter _ List.pairwise_lt_range
+        cases ids with
+        | nil => cases hin
+        | cons a r =>
+          simp at hh; subst hh
+          rcases List.mem_cons.1 hin with h | h
+          · omega
+          · exact Nat.le_of_lt ((List.pairwise_cons.1 hsorted).1 sid h)
+      refine ⟨c, ids, first, rfl, e1, hin, hh, hle, hfk, ?_, ?_, h1⟩
+      · simpa using e2.symm
+      · intro k' c' ids' hk' hin'
+        obtain ⟨e1', _⟩ := h2 k' c' ids' hk'
+        rw [e1'] at hin'
+        have := (List.mem_filter.1 hin').2
+        exact (of_decide_eq_true this).symm
+
+/-- No clash between tag strings and haplotype strings among the fused scaffolds. -/
+def NoClash (fs : List Scaffold) : Prop :=
+  ∀ i j, i < fs.length → j < fs.length →
+    truthy (fs.getD i default).tag = true → ¬ truthy (fs.getD j default).tag = true →
+    (fs.getD j default).haplotype ≠ (fs.getD i default).tag
+
+/-- **Routing as documented, under `NoClash`.**  A scaffold with a tag lands in the assembly keyed by the tag, which is
+    not curated; an untagged one with a haplotype in the curated assembly keyed by the haplotype; the rest in the curated
+    assembly keyed `none` (primary).  For the `none` assembly no side condition is needed (`assembly_key_primary`). -/
+theorem assembly_key_noclash (prefix_ : Str) (fs : List Scaffold) (sid : Nat) (hsid : sid < fs.length)
+    (hnc : NoClash fs) :
+    let s := fs.getD sid default
+    (truthy s.tag = true → ∃ ids, dGet? (asmsOf prefix_ fs) s.tag = some (false, ids) ∧ sid ∈ ids) ∧
+    (¬ truthy s.tag = true → truthy s.haplotype = true →
+        ∃ ids, dGet? (asmsOf prefix_ fs) s.haplotype = some (true, ids) ∧ sid ∈ ids) ∧
+    (¬ truthy s.tag = true → ¬ truthy s.haplotype = true →
+        ∃ ids, dGet? (asmsOf prefix_ fs) none = some (true, ids) ∧ sid ∈ ids) := by
+  intro s
+  obtain ⟨c, ids, first, hd, _, hin, hh, hle, hfk, hc, _, _⟩ := assembly_key prefix_ fs sid hsid
+  have hflt : first < fs.length := Nat.lt_of_le_of_lt hle hsid
+  obtain ⟨a1, a2, a3⟩ := asmKey_cases s
+  obtain ⟨b1, b2, b3⟩ := asmKey_cases (fs.getD first default)
+  refine ⟨?_, ?_, ?_⟩
+  · intro ht
+    have hk : (asmKey s).1 = s.tag := by rw [a1 ht]
+    refine ⟨ids, ?_, hin⟩
+    rw [← hk, hd]
+    by_cases hft : truthy (fs.getD first default).tag = true
+    · rw [hc, b1 hft]
+    · exfalso
+      by_cases hfh : truthy (fs.getD first default).haplotype = true
+      · rw [b2 hft hfh] at hfk
+        exact hnc sid first hsid hflt ht hft (hfk.trans hk)
+      · rw [b3 hft hfh] at hfk
+        have : none = s.tag := hfk.trans hk
+        rw [← this] at ht; cases ht
+  · intro ht hh'
+    have hk : (asmKey s).1 = s.haplotype := by rw [a2 ht hh']
+    refine ⟨ids, ?_, hin⟩
+    rw [← hk, hd]
+    by_cases hft : truthy (fs.getD first default).tag = true
+    · exfalso
+      rw [b1 hft] at hfk
+      exact hnc first sid hflt hsid hft ht (hfk.trans hk).symm
+    · by_cases hfh : truthy (fs.getD first default).haplotype = true
+      · rw [hc, b2 hft hfh]
+      · rw [hc, b3 hft hfh]
+  · intro ht hh'
+    have hk : (asmKey s).1 = none := by rw [a3 ht hh']
+    refine ⟨ids, ?_, hin⟩
+    rw [← hk, hd]
+    by_cases hft : truthy (fs.getD first default).tag = true
+    · exfalso
+      rw [b1 hft] at hfk
+      have : (fs.getD first default).tag = none := hfk.trans hk
+      rw [this] at hft; cases hft
+    · by_cases hfh : truthy (fs.getD first default).haplotype = true
+      · rw [hc, b2 hft hfh]
+      · rw [hc, b3 hft hfh]
+
+/-- the primary assembly (key `none`) is always curated and never receives a tagged or haplotype-labelled scaffold -/
+theorem assembly_key_primary (prefix_ : Str) (fs : List Scaffold) (c : Bool) (ids : List Nat)
+    (h : dGet? (asmsOf prefix_ fs) none = some (c, ids)) :
+    c = true ∧ ∀ sid ∈ ids, sid < fs.length ∧ ¬ truthy (fs.getD sid default).tag = true ∧
+      ¬ truthy (fs.getD sid default).haplotype = true := by
+  have hg := ginv_fold (fun j => (asmKey (fs.getD j default)).1) (fun j => (asmKey (fs.getD j default)).2)
+    (List.range fs.length) [] [] ⟨by simp, by intro k c ids h; simp [dGet?] at h, by simp⟩
+  have hasm : asmsOf prefix_ fs = (List.range fs.length).foldl
+      (fun asms j => addAsm asms ((asmKey (fs.getD j default)).1, (asmKey (fs.getD j default)).2) j) [] :=
+    splitLoop_asms prefix_ fs
+  rw [← hasm, List.nil_append] at hg
+  obtain ⟨e1, e2⟩ := hg.2.1 none c ids h
+  have hall : ∀ sid ∈ ids, sid < fs.length ∧ ¬ truthy (fs.getD sid default).tag = true ∧
+      ¬ truthy (fs.getD sid default).haplotype = true := by
+    intro sid hs
+    rw [e1] at hs
+    obtain ⟨hr, hk⟩ := List.mem_filter.1 hs
+    have hk : (asmKey (fs.getD sid default)).1 = none := by simpa using hk
+    obtain ⟨a1, a2, _⟩ := asmKey_cases (fs.getD sid default)
+    refine ⟨List.mem_range.1 hr, ?_, ?_⟩
+    · intro ht; rw [a1 ht] at hk; simp only [] at hk; rw [hk] at ht; cases ht
+    · intro hh
+      by_cases ht : truthy (fs.getD sid default).tag = true
+      · rw [a1 ht] at hk; simp only [] at hk; rw [hk] at ht; cases ht
+      · rw [a2 ht hh] at hk; simp only [] at hk; rw [hk] at hh; cases hh
+  refine ⟨?_, hall⟩
+  cases hh : ids.head? with
+  | none => rw [hh] at e2; cases e2
+  | some first =>
+    rw [hh] at e2
+    obtain ⟨_, h1, h2⟩ := hall first (List.mem_of_mem_head? hh)
+    have : some (asmKey (fs.getD first default)).2 = some c := by simpa using e2
+    rw [(asmKey_cases _).2.2 h1 h2] at this
+    cases this; rfl
+
+/-! ### non-vacuity and the counterexample -/
+
+def untaggedHapContaminant : Scaffold :=
+  { name := ['C','o','n','t','a','m','i','n','a','n','t','_','x','_','1'], haplotype := some sContaminant, rank := 3 }
+def taggedContaminant : Scaffold := { name := ['c','t','g','2'], tag := some sContaminant, rank := 3 }
+def plainScaffold : Scaffold := { name := ['S','U','P','E','R','_','1'], rank := 1 }
+
+/-- COUNTEREXAMPLE to "tagged ⇒ `curated = false`": the Contaminant-tagged scaffold (id 1) is put in an assembly with
+    `curated = true`, created by the untagged scaffold (id 0) whose haplotype string is "Contaminant". -/
+theorem curated_counterexample :
+    asmsOf ['S','U','P','E','R','_'] [untaggedHapContaminant, taggedContaminant, plainScaffold] =
+      [(some sContaminant, true, [0, 1]), (none, true, [2])] := by decide
+
+/-- … and in the other order the haplotype's scaffold is filed under the non-curated contaminant assembly -/
+example :
+    asmsOf ['S','U','P','E','R','_'] [taggedContaminant, untaggedHapContaminant, plainScaffold] =
+      [(some sContaminant, false, [0, 1]), (none, true, [2])] := by decide
+
+/-- `NoClash` is satisfiable with all three kinds of scaffold present, and the routing is then as documented -/
+example :
+    NoClash [taggedContaminant, { plainScaffold with haplotype := some ['H','a','p','2'] }, plainScaffold] ∧
+    asmsOf ['S','U','P','E','R','_']
+        [taggedContaminant, { plainScaffold with haplotype := some ['H','a','p','2'] }, plainScaffold] =
+      [(some sContaminant, false, [0]), (some ['H','a','p','2'], true, [1]), (none, true, [2])] := by
+  refine ⟨?_, by decide⟩
+  intro i j hi hj
+  have hi' : i = 0 ∨ i = 1 ∨ i = 2 := by simp at hi; omega
+  have hj' : j = 0 ∨ j = 1 ∨ j = 2 := by simp at hj; omega
+  rcases hi' with rfl | rfl | rfl <;> rcases hj' with rfl | rfl | rfl <;> decide
+
+/-- `label_special` / `label_target_mode` hypotheses are satisfiable: a Haplotig piece in Target mode -/
+example :
+    let n : Namer := { autosomePrefix := [], targetTags := true, currentScaffoldName := some ['S','1'], currentRank := 1 }
+    let o : OverlapResult := { bait := { name := ['c'], start := 1, stop := 9, strand := 1 }, start := 1, stop := 9, rows := [] }
+    let frag : Fragment := { name := ['c'], start := 1, stop := 9, strand := 1, tags := [sHaplotig, sContaminant] }
+    targetMode n [sPainted] ∧
+    (labelScaffold n o 0 frag [sPainted] ['S','1']).toOption.map (fun p => (p.2.tag, p.2.rank, p.2.name)) =
+      some (some sHaplotig, 3, ['H','_','1']) := by
+  refine ⟨⟨rfl, by decide⟩, by decide⟩
+
+/-- `fuse_keeps_tag` on a concrete store: two added results with the same name but different tags stay apart -/
+example :
+    let f : Fragment := { name := ['c'], start := 1, stop := 9, strand := 1 }
+    let o1 : OverlapResult := { bait := f, start := 1, stop := 9, rows := [.frag f], name := ['X'], tag := some sHaplotig }
+    let o2 : OverlapResult := { bait := f, start := 1, stop := 9, rows := [.frag f], name := ['X'] }
+    let b : Build := { namer := { autosomePrefix := [] }, store := [⟨o1, true⟩, ⟨o2, true⟩, ⟨o1, true⟩],
+                       nextOid := 0, joinGap := none, err := 0 }
+    (fuseByName b).map (fun s => (s.tag, s.rows.length)) = [(some sHaplotig, 2), (none, 1)] := by decide
+
 end AgpTpf.C09
